@@ -6,6 +6,8 @@ claimed = {
          "Generated request/response shapes x header-rewrite configurations x tunnel options x keep-alive sequences x network schedules; bodies compared after de-framing, end-to-end headers as multisets."),
  "C03": ("exploration", "8 C03", "seeded deterministic whole-system simulation over simulated UDP with per-leg loss/duplication/reordering and work-connection resets; multiset-inclusion oracles measured at the public socket and at the client's local sockets; reply addressing",
          "Datagram payloads 12..packet size, several user source addresses, udp and sudp(visitor) paths, encryption/compression/mux; injected duplication/loss is never blamed on frp because inclusion is measured after the faulty leg."),
+ "C05": ("exploration", "8 C05", "seeded deterministic whole-system simulation with a byte tap on the client-server path: per-run high-entropy markers (token, secret key, http password, proxy name, payload) searched in every byte that crossed the path under drawn TLS/encryption/compression/mux/websocket configurations; TLS policy scenarios with scripted plaintext/TLS peers (no, rogue, good certificate; all 256 first bytes) and a scripted TLS server with right/rogue/other-name identity against real frpc",
+         "Configuration lattice x schedules; absence of markers on the wire is decided over the complete byte record of the run, the policy half by whether any protocol reply (server side) or any protocol byte (client side) follows an unacceptable handshake."),
  "C06": ("exploration", "8 C06", "seeded deterministic simulation: scripted route owners, histories of register/acknowledged-remove/re-register interleaved with HTTP (keep-alive), SNI and CONNECT requests, checked against a reference most-specific matcher written from the statement",
          "Route tables with exact/wildcard/catch-all hosts, nested locations, user restrictions on http/https/tcpmux vhosts; every request's serving backend (which stamps and records) is compared with the reference owner; removed routes must stay silent."),
  "C07": ("exploration", "8 C07", "seeded deterministic simulation in the routes world: protected, unprotected and user-routed routes on the same hosts; request-shape enumeration (origin/absolute form, CONNECT, Authorization/Proxy-Authorization variants, malformed credentials); negative oracle on what protected backends saw",
